@@ -218,6 +218,10 @@ def build_world(spec: dict) -> World:
         release_taskgraphs=f["release_taskgraphs"],
         goal="max_slack",
     )
+    if spec.get("warmup"):
+        # warm-scheduler flavour: the same scheduler object has already been invoked once, on an unrelated world
+        with contextlib.redirect_stdout(io.StringIO()):
+            _worlds.run_warmup(R, w.scheduler, spec["warmup"])
     return w
 
 
@@ -1142,7 +1146,9 @@ def run_case(spec: dict):
 
 
 def canonical_case(spec: dict) -> dict:
-    return {k: spec[k] for k in ("now", "pools", "graphs", "flags")}
+    c = {k: spec[k] for k in ("now", "pools", "graphs", "flags")}
+    c.update({k: spec[k] for k in ("scale", "warmup") if spec.get(k)})  # flavours (harness/planners/_worlds.py)
+    return c
 
 
 def compare_case(w, rec, reply) -> list[str]:
@@ -1237,7 +1243,7 @@ def mixed_corpus() -> list[dict]:
     ]
 
 
-P_DECL, P_MIXED = 0.4, 0.25
+P_DECL, P_MIXED, P_WARM = 0.4, 0.25, 0.15
 
 
 def _count_flavours(chk, name, spec):
@@ -1247,6 +1253,8 @@ def _count_flavours(chk, name, spec):
         chk.count(f"{name}:flavour=declaration-order" + ("" if all(_worlds.is_topological_decl(g) for g in spec["graphs"]) else ",non-topological"))
     if spec.get("flavour"):
         chk.count(f"{name}:flavour={spec['flavour']}")
+    if spec.get("warmup"):
+        chk.count(f"{name}:flavour=warm-scheduler")
 
 
 def gen_specs(prop: str, rng, tier: str, widened=False) -> list[dict]:
@@ -1266,6 +1274,10 @@ def gen_specs(prop: str, rng, tier: str, widened=False) -> list[dict]:
             _worlds.shuffle_decl(spec, fr)
         if fr.random() < P_MIXED:
             _worlds.scale_mixed(spec, fr)
+    wr = rng.sub(f"z3/{prop}/{'w' if widened else 'n'}/warmup")
+    for spec in specs[n_corpus:]:
+        if wr.random() < P_WARM:
+            _worlds.gen_warmup(spec, wr)
     specs[n_corpus:n_corpus] = mixed_corpus()
     # chain-B worlds in addition (10 %)
     for _ in range(max(4, n // 10)):
